@@ -15,6 +15,13 @@ fn trunc_div(a: i128, b: i128) -> i128 {
 
 /// all seven differences, duration_between, antisymmetry for one ordered pair of DateTimes
 fn case_dt_pair(a: (i64, u64), b: (i64, u64), oa: i32, ob: i32, acc: &mut Acc) {
+    case_dt_pair_inner(a, b, oa, ob, acc);
+    if crate::props::anchor::hash(&[a.0 as u64, a.1, b.0 as u64, b.1]) % 16 == 0 {
+        crate::props::anchor::values(acc, "differences (purity probe)", &|| json!({"kind": "dt", "a": [a.0, a.1.to_string()], "b": [b.0, b.1.to_string()], "oa": oa, "ob": ob}));
+    }
+}
+
+fn case_dt_pair_inner(a: (i64, u64), b: (i64, u64), oa: i32, ob: i32, acc: &mut Acc) {
     let (x, y) = match (dt_from_off(a.0, a.1, oa), dt_from_off(b.0, b.1, ob)) {
         (Some(x), Some(y)) => (x, y),
         _ => {
